@@ -12,7 +12,8 @@ import tempfile
 from hypothesis import strategies as st
 
 from ..common import REPO, VERIF_DIR
-from ..gen import corpus, mutate, xonsh
+from ..gen import corpus, mltok, mutate, xonsh
+from ..gen.fstr import FGen
 from ..gen.pysrc import PyGen
 from ..hyp import drive
 from .c11 import TARGETED, wrap
@@ -21,7 +22,8 @@ META = {
     "level": "exploration",
     "rule": (
         "inputs: file contents (UTF-8 bytes) -- G1 programs (ASCII and non-ASCII), corpus statements, xonsh seeds, C11's targeted syntax errors "
-        "in generated layouts, G4 mutations; newline conventions LF / CRLF / lone CR / mixed, with and without final newline; each file is "
+        "in generated layouts, G10 programs (triple-quoted tokens of 2..6 lines inside rejected constructs with a known range, f-string debug fields "
+        "laid out over several lines, followed by errors whose diagnosis spans lines), G7 f-string statements, G4 mutations; newline conventions LF / CRLF / lone CR / mixed, with and without final newline; each file is "
         "parsed by parse_file(path) and by parse_string(bytes.decode('utf-8'), mode='exec') inside child interpreters started in 5 process "
         "environments {LC_ALL=C.UTF-8; LC_ALL=C; LC_ALL=C PYTHONCOERCECLOCALE=0 PYTHONUTF8=0 (ASCII preferred encoding); -X utf8=1; -X utf8=0}.  "
         "Oracle: inside each child the two canonical outcomes (tree dump with positions / exception class, message, line, column, end, text) are "
@@ -154,9 +156,17 @@ def search(rec, ctx):
 
     def gen(rnd):
         r = rnd.random()
-        if r < 0.3:
+        if r < 0.22:
             src, stream = PyGen(rnd, nonascii=rnd.random() < 0.5, max_depth=3).program(3), "g1"
-        elif r < 0.45 and corp:
+        elif r < 0.34:
+            # tokens spanning several physical lines, debug fields laid out over lines: the source text is looked up again
+            src, _ = mltok.program(rnd)
+            stream = "multi-line-tokens"
+        elif r < 0.4:
+            g = FGen(rnd, nonascii=rnd.random() < 0.4)
+            src = "".join(g.statement() for _ in range(rnd.randrange(1, 4))) + (mltok.pick(rnd, mltok.LATER_ERRORS) if rnd.random() < 0.4 else "")
+            stream = "fstrings"
+        elif r < 0.5 and corp:
             src, stream = corp[rnd.randrange(len(corp))], "corpus"
         elif r < 0.6:
             src, stream = seeds[rnd.randrange(len(seeds))], "xonsh-seed"
